@@ -119,6 +119,9 @@ type RemRace struct {
 	PCT    int   `json:"pct"`
 	NTasks int   `json:"ntasks"`
 	Iters  int   `json:"iters"`
+	// NewBranch: the pushers race for a branch name the remote does not have yet (each has its own,
+	// divergent, commit on it) before they go on racing for main.
+	NewBranch bool `json:"new_branch,omitempty"`
 }
 
 // RemCrash names a crash point inside a transfer by the ordinal of a structural file-system event
@@ -145,7 +148,7 @@ func (REM) Generate(seed uint64, tier string) *core.Scenario {
 	}
 	b.TargetSize = []uint64{1 << 30, 1 << 30, 16384, 4096, 1024}[r.Intn(5)]
 	if r.Chance(1, 4) {
-		b.Race = &RemRace{PCT: []int{0, 0, 2, 3}[r.Intn(4)], NTasks: r.Range(2, 3), Iters: r.Range(2, 4)}
+		b.Race = &RemRace{PCT: []int{0, 0, 2, 3}[r.Intn(4)], NTasks: r.Range(2, 3), Iters: r.Range(2, 4), NewBranch: r.Chance(1, 2)}
 		raw, _ := json.Marshal(b)
 		return &core.Scenario{Property: "C35", Harness: "C35", Seed: seed, Tier: tier, Body: raw}
 	}
@@ -1342,6 +1345,7 @@ func (x *remRun) runRace() {
 	var mu sync.Mutex
 	type ack struct {
 		who    string
+		branch string
 		commit string
 		it     int
 	}
@@ -1352,6 +1356,38 @@ func (x *remRun) runRace() {
 			ws := x.session(d)
 			if ws == nil {
 				return
+			}
+			if rc.NewBranch {
+				// everybody creates branch "feat" from main with a commit of their own and pushes it: the
+				// remote has no such branch, so the old head every pusher saw is "none"
+				mu.Lock()
+				x.nextPK++
+				pk := x.nextPK
+				mu.Unlock()
+				for _, q := range []string{"CALL dolt_checkout('-b', 'feat')", fmt.Sprintf("INSERT INTO t VALUES (%d, '%s', 'feat')", pk, d.name), "CALL dolt_commit('-Am', 'feat of " + d.name + "')"} {
+					if _, err := ws.Exec(x.ctx, q); err != nil {
+						res.Violate("statement-failed", "mode=race", 0, "%s: %s: %s", d.name, q, firstLine(err))
+						return
+					}
+				}
+				rows, err := ws.Exec(x.ctx, "SELECT hash FROM dolt_branches WHERE name = 'feat'")
+				if err != nil || len(rows) != 1 {
+					res.Violate("read-failed", "mode=race", 0, "%s: %v", d.name, err)
+					return
+				}
+				tk.Yield("stmt")
+				if _, err := ws.Exec(x.ctx, "CALL dolt_push('origin', 'feat')"); err == nil {
+					mu.Lock()
+					acked = append(acked, ack{d.name, "feat", rows[0][0], -1})
+					mu.Unlock()
+					res.Probe("new_branch_push_ok")
+				} else {
+					res.Probe("new_branch_push_refused")
+				}
+				if _, err := ws.Exec(x.ctx, "CALL dolt_checkout('main')"); err != nil {
+					res.Violate("statement-failed", "mode=race", 0, "%s: checkout main: %s", d.name, firstLine(err))
+					return
+				}
 			}
 			for it := 0; it < rc.Iters; it++ {
 				tk.Yield("stmt")
@@ -1378,7 +1414,7 @@ func (x *remRun) runRace() {
 					tk.Yield("stmt")
 					if _, err := ws.Exec(x.ctx, "CALL dolt_push('origin', 'main')"); err == nil {
 						mu.Lock()
-						acked = append(acked, ack{d.name, head, it})
+						acked = append(acked, ack{d.name, "main", head, it})
 						mu.Unlock()
 						res.Probe("push_ok")
 						res.Probe("transfer_ok")
@@ -1427,7 +1463,6 @@ func (x *remRun) runRace() {
 		res.Violate("remote-unreadable", "mode=race", 0, "%s", firstLine(err))
 		return
 	}
-	final := heads["main"]
 	// the final head may be a commit no database has yet fetched its ancestors for: fetch everywhere
 	for _, d := range x.dbs {
 		x.session(d).Exec(x.ctx, "CALL dolt_fetch('origin')")
@@ -1435,12 +1470,15 @@ func (x *remRun) runRace() {
 	x.refresh()
 	res.Evaluations++
 	for _, a := range acked {
+		final := heads[a.branch]
 		if !x.isAncestor(a.commit, final) {
-			res.Violate("acknowledged-push-lost", "mode=race", a.it, "%s pushed %s to main without --force and was told it succeeded; the remote's main ends at %s, which does not contain it: two pushes succeeded against the same old head (acknowledged pushes: %v)", a.who, a.commit, final, acked)
+			res.Violate("acknowledged-push-lost", "mode=race;branch="+map[bool]string{true: "new", false: "existing"}[a.branch != "main"], a.it, "%s pushed %s to %s without --force and was told it succeeded; the remote's %s ends at %q, which does not contain it: two pushes succeeded against the same old head (acknowledged pushes: %v)", a.who, a.commit, a.branch, a.branch, final, acked)
 			break
 		}
 	}
-	x.remote["main"] = final
+	for br, h := range heads {
+		x.remote[br] = h
+	}
 	x.verify("concurrent pushes", nil, nil)
 	res.Ops = s.Switches + len(acked)
 	res.LogHash = s.Hash()
